@@ -16,6 +16,22 @@ Inductive case :=
 | CIter (d : list Z) (out : list (list Z))            (* iter_permutations(d).collect() *)
 | CNb (k : nbkind) (n m i j : Z) (out : list (Z * Z)). (* iter_neighbours_k(n, m, i, j).collect() *)
 
+(** Printing aid for the wide types (a 128-bit decimal numeral costs Coq's parser about 3 ms): when every item [u]
+    of an observed output agrees with [base] outside the bit positions [free], the printer writes the item as the
+    small number formed by its bits at the positions of [free] (lowest position = bit 0), and the case term rebuilds
+    the observed items with [unpack].  Items that do not fit this shape are printed in full. *)
+Fixpoint deposit_pos (m : positive) (i : N) : N :=
+  match m with
+  | xH => N.modulo i 2
+  | xO m' => N.double (deposit_pos m' i)
+  | xI m' => (N.double (deposit_pos m' (N.div2 i)) + N.modulo i 2)%N
+  end.
+Definition deposit (mask i : N) : N := match mask with N0 => 0%N | Npos m => deposit_pos m i end.
+Definition unpack (free base : Z) (idxs : list Z) : list Z :=
+  map (fun i => base + Z.of_N (deposit (Z.to_N free) (Z.to_N i))) idxs.
+Definition unpack_sub (x : Z) (idxs : list Z) : list Z := unpack x 0 idxs.
+Definition unpack_sup (w x : Z) (idxs : list Z) : list Z := unpack (2 ^ w - 1 - x) x idxs.
+
 Definition nonneg (l : list Z) : bool := forallb (fun v => 0 <=? v) l.
 Definition toN (l : list Z) : list N := map Z.to_N l.
 Definition zz_eqb (a b : Z * Z) : bool := peqb Z.eqb Z.eqb a b.
